@@ -23,13 +23,16 @@ from kappadata.collators import KDComposeCollator, KDSingleCollatorWrapper, PadS
 from kappadata.wrappers.mode_wrapper import ModeWrapper
 
 from . import core
-from .h18_members import (FIXED_TENSOR_ITEMS, FLOAT_ITEMS, OTHER_ITEMS, SEQ_ITEMS, RecMember, SeqDS, describe,
+from .h18_members import (FIXED_TENSOR_ITEMS, FLOAT_ITEMS, OTHER_ITEMS, SEQ_ITEMS, RecMember, SeqDS, cv, describe,
                           edit_value, eq, snap)
 
 LEVEL = "exploration"
-RULE = ("four case families (pipe and pad cases additionally: 15% use the object returned by set_rng / worker_init_fn as "
-        "collate_fn, 25% are built with another dataset_mode / return_ctx / member list and moved to the final configuration "
-        "through the public attributes, from outside or in a subclass constructor). 'pipe': a harness sequence dataset (fixed shapes), a mode of 1..4 distinct items (tensors "
+RULE = ("four case families (pipe and pad cases additionally carry at most one extra: 12% use the object returned by set_rng / "
+        "worker_init_fn as collate_fn; 15% hand return_ctx over as 1/0, np.bool_ or the result of np.any; 15% collate the same "
+        "list of sample objects again with the same and/or a second separately built pipeline; 20% are built with another "
+        "dataset_mode / return_ctx / member list and moved to the final configuration through the public attributes, from "
+        "outside or in a subclass constructor. After every call of every family the caller's sample objects and per-sample "
+        "ctx dicts are deep-compared with a snapshot taken before the call). 'pipe': a harness sequence dataset (fixed shapes), a mode of 1..4 distinct items (tensors "
         "of several ranks/dtypes, 0-dim tensor, python int / float / bool, numpy float64 / int16 scalars, str, index, ctx.<key>), return_ctx, B in 1..8 sample indices "
         "(random order, optional repeats), a member order of length 1..4 over {before, after, none (collates itself), "
         "none-raw (per-sample member that returns the samples uncollated)} (all 156 driven orders are enumerated first, "
@@ -65,6 +68,11 @@ ASSUMPTIONS = [
     "(what default collation can batch); ctx values of ragged shape are not driven",
     "items are tensors, python ints / floats (incl. values float32 cannot represent) / bools, numpy scalars, strings, python lists / nested lists / tuples of numbers, dicts; for the padding collator a tuple-valued item as the only item and a (tuple item, dict item) pair in the first two mode positions are not driven - the collator recognises sample tuples and (items, ctx) samples by exactly these shapes; items that are themselves tuples/dicts are not driven for the padding collator",
     "KDSingleCollatorWrapper is held to the same contract as KDComposeCollator with one member",
+    "return_ctx is a truth value: 1 / 0 / np.bool_ / np.True_ behave exactly like the python bool of the same truth value "
+    "(the current tree only ever tests its truthiness)",
+    "a collator call is a pure function of the samples: the caller's sample objects and per-sample ctx dicts (values and key "
+    "order) are unchanged after every call on the current tree, so collating the same sample objects again - same or another "
+    "pipeline - gives an equal result",
     "setters: whatever set_rng / worker_init_fn return (self on the current tree for set_rng, None for worker_init_fn) must, "
     "when it is an object, serve as collate_fn exactly like the object the setter was called on",
     "the public attributes dataset_mode, return_ctx, collators (compose) / collator (wrapper) are read at call time by all "
@@ -77,7 +85,8 @@ ASSUMPTIONS = [
     "state in the harness is its log; stateful members are not driven)",
 ]
 MONITORS = ["pipeline_outputs_checked", "member_inputs_checked", "ctx_merges_checked", "order_refusals_checked",
-            "pad_fields_checked", "pad_other_fields_checked", "pad_ctx_checked", "shared_entry_calls_checked", "pad_history_results_checked", "fluent_returns_used", "reconfigured_calls_checked"]
+            "pad_fields_checked", "pad_other_fields_checked", "pad_ctx_checked", "shared_entry_calls_checked", "pad_history_results_checked", "fluent_returns_used", "reconfigured_calls_checked", "nonbool_flag_calls_checked", "repeated_collations_checked",
+            "caller_objects_checked"]
 
 REFUSAL = "raw-member-after-collation"
 K_WRAPPER = "wrapper:bypasses-pipeline"
@@ -287,7 +296,7 @@ def _gen_padhist(rng, i):
 
 
 def gen_cases(run):
-    total = run.n(12000, 400000)
+    total = run.n(9000, 400000)
     rng = run.rng
     for i in range(total):
         if i % 8 == 7:
@@ -368,6 +377,25 @@ def _guarded(run, fn, refusal_class, key, what):
         return "failed", e
 
 
+def _unchanged(run, desc, batch, given):
+    """the caller's sample objects (incl. their per-sample ctx dicts) are as they were before the call"""
+    run.count("caller_objects_checked")
+    if len(batch) == len(given) and cv(batch) == cv(given) and _dict_orders(batch) == _dict_orders(given):
+        return True
+    j = next((i for i in range(min(len(batch), len(given))) if cv(batch[i]) != cv(given[i]) or _dict_orders(batch[i]) != _dict_orders(given[i])), None)
+    run.violation(K_MUTATED, f"{desc}: the call changed the caller's sample objects: sample {j} was {describe(given[j]) if j is not None else len(given)}, "
+                             f"is now {describe(batch[j]) if j is not None else len(batch)}")
+    return False
+
+
+def _dict_orders(v):
+    if isinstance(v, dict):
+        return [list(v.keys())] + [_dict_orders(x) for x in v.values()]
+    if isinstance(v, (list, tuple)):
+        return [_dict_orders(x) for x in v]
+    return None
+
+
 def _try_collate(v):
     try:
         return default_collate(v)
@@ -398,13 +426,34 @@ K_FLUENT = "fluent:returned-object-not-equivalent"
 K_RECONF = "reconfigured:call-does-not-follow-attributes"
 
 
+K_FLAG = "return_ctx:non-bool-flag-not-used-by-truth-value"
+K_MUTATED = "caller-objects:samples-or-ctx-dicts-mutated"
+K_REPEAT = "repeat:same-samples-collated-again-differ"
+FLAG_KINDS = ("int", "npbool", "npany")
+
+
+def _flag(v, kind):
+    """return_ctx as users hand it over: python bool, 1/0, np.bool_, the result of np.any(...)"""
+    if kind == "int":
+        return 1 if v else 0
+    if kind == "npbool":
+        return np.bool_(v)
+    if kind == "npany":
+        return np.any(np.array([bool(v), False]))
+    return v
+
+
 def _gen_extras(rng, builder, mode_items, spec):
     """(a) use what set_rng / worker_init_fn returns as the collate_fn; (b) build with another configuration and move to
     the final one through the public attributes (from outside, or in a subclass constructor after super().__init__)"""
     r = rng.random()
-    if r < 0.15:
+    if r < 0.12:
         spec["fluent"] = rng.choice(["set_rng", "set_rng", "worker_init_fn"])
-    elif r < 0.40:
+    elif r < 0.27:
+        spec["flag_kind"] = rng.choice(FLAG_KINDS)     # (c) return_ctx given as 1 / 0 / np.bool_ / np.any(...)
+    elif r < 0.42:
+        spec["repeat"] = rng.choice(["same", "other", "both"])  # (d) the same sample objects are collated again
+    elif r < 0.62:
         third = "collators" if builder != "single" else None
         attrs = [a for a in ("return_ctx", "dataset_mode", third) if a and rng.random() < 0.6] or ["return_ctx"]
         other = list(reversed(mode_items)) if len(mode_items) > 1 and rng.random() < 0.5 else ["index"] if mode_items != ["index"] else ["class"]
@@ -427,18 +476,19 @@ def _configured(cls, init_kwargs, overrides, style):
     return obj
 
 
-def _initial_config(mode, ctx, reconf):
+def _initial_config(mode, ctx, reconf, kind=None):
     attrs = (reconf or {}).get("attrs", [])
-    return (reconf["mode0"] if "dataset_mode" in attrs else mode), ((not ctx) if "return_ctx" in attrs else ctx)
+    return (reconf["mode0"] if "dataset_mode" in attrs else mode), _flag((not ctx) if "return_ctx" in attrs else ctx, kind)
 
 
-def _build_entry(builder, first, members, mode, ctx, reconf, make_decoy):
+def _build_entry(builder, first, members, mode, ctx, reconf, make_decoy, kind=None):
     """the collate_fn under test. Without `reconf` it is constructed with (mode, ctx, members); with it, the attributes
     named in reconf['attrs'] are constructed with other values and then set to the final ones."""
     attrs = (reconf or {}).get("attrs", [])
     style = (reconf or {}).get("style", "assign")
     mode_c = reconf["mode0"] if "dataset_mode" in attrs else mode
-    ctx_c = (not ctx) if "return_ctx" in attrs else ctx
+    ctx_c = _flag((not ctx) if "return_ctx" in attrs else ctx, kind)
+    ctx = _flag(ctx, kind)
     ov = {}
     if "dataset_mode" in attrs:
         ov["dataset_mode"] = mode
@@ -480,7 +530,7 @@ def _pipe_desc(spec):
     return (f"{spec['builder']}[{ms}] mode={spec['mode']!r} return_ctx={spec['ctx']} B={spec['B']} idxs={spec['idxs']}")
 
 
-def _judge(run, desc, coll, members, mspecs, mode, has_ctx, builder, batch, kover=None):
+def _judge(run, desc, coll, members, mspecs, mode, has_ctx, builder, batch, kover=None, out=None):
     """one call `coll(batch)` against the reference; `members` are the RecMember objects of the pipeline in order
     (their logs are reset here), `mspecs` their specs. -> True iff nothing was reported"""
     mode_items = mode.split(" ")
@@ -517,6 +567,10 @@ def _judge(run, desc, coll, members, mspecs, mode, has_ctx, builder, batch, kove
         return "pipeline:refused-in-domain" if kind == "guard" else "pipeline:crash"
 
     st, res = _guarded(run, lambda: coll(batch), REFUSAL if expect_refusal else None, crash_key, desc)
+    if out is not None:
+        out["st"], out["res"] = st, res
+    if not _unchanged(run, desc, batch, given):
+        return
     for k, m in enumerate(members):
         # only where the member was handed what the reference says (otherwise the helper was fed the pipeline's mistake)
         if not (len(m.log) == 1 and k < len(model["inputs"]) and eq(m.log[0]["input"], model["inputs"][k][1])):
@@ -638,27 +692,61 @@ def _run_pipe(run, spec):
     if batch is None:
         return
     mspecs = spec["members"]
-    reconf, fluent = spec.get("reconf"), spec.get("fluent")
-    mode_c, ctx_c = _initial_config(mode, has_ctx, reconf)
-    members = [RecMember(k, m["cmode"], m["op"], keep_raw=bool(m.get("raw")), **({"dataset_mode": mode_c, "return_ctx": ctx_c} if builder == "single" else {}))
-               for k, m in enumerate(mspecs)]
+    reconf, fluent, kind, repeat = spec.get("reconf"), spec.get("fluent"), spec.get("flag_kind"), spec.get("repeat")
+
+    def build(builder):
+        mode_c, ctx_c = _initial_config(mode, has_ctx, reconf, kind)
+        members = [RecMember(k, m["cmode"], m["op"], keep_raw=bool(m.get("raw")), **({"dataset_mode": mode_c, "return_ctx": ctx_c} if builder == "single" else {}))
+                   for k, m in enumerate(mspecs)]
+        st, coll = _guarded(run, lambda: _build_entry(builder, members[0], members, mode, has_ctx, reconf, lambda: RecMember(9, "before", None), kind),
+                            None, kover or (K_WRAPPER if builder == "wrapper" else "pipeline:constructor"), f"constructing {desc}")
+        return (coll, members) if st == "ok" else (None, members)
+
     if reconf:
         desc += f" [built with other {reconf['attrs']} (dataset_mode {reconf['mode0']!r}), then set via attributes, style {reconf['style']}]"
         run.cover("reconf", builder, tuple(reconf["attrs"]), reconf["style"])
     if fluent:
         desc += f" [collate_fn = what {fluent}() returned, if anything]"
         run.cover("fluent", builder, fluent)
-    kover = K_RECONF if reconf else None
-    st, coll = _guarded(run, lambda: _build_entry(builder, members[0], members, mode, has_ctx, reconf, lambda: RecMember(9, "before", None)),
-                        None, kover or (K_WRAPPER if builder == "wrapper" else "pipeline:constructor"), f"constructing {desc}")
-    if st != "ok":
+    if kind:
+        desc += f" [return_ctx handed over as {_flag(has_ctx, kind)!r} ({type(_flag(has_ctx, kind)).__name__})]"
+        run.cover("flag", builder, kind, has_ctx)
+    kover = K_RECONF if reconf else K_FLAG if kind else None
+    coll, members = build(builder)
+    if coll is None:
         return
     coll, kfl = _apply_fluent(run, coll, fluent, desc)
     if coll is None:
         return
     if reconf:
         run.count("reconfigured_calls_checked")
-    _judge(run, desc, coll, members, mspecs, mode, has_ctx, builder, batch, kover=kfl or kover)
+    if kind:
+        run.count("nonbool_flag_calls_checked")
+    first = {}
+    ok = _judge(run, desc, coll, members, mspecs, mode, has_ctx, builder, batch, kover=kfl or kover, out=first)
+    if not (repeat and ok and first.get("st") == "ok"):
+        return
+    # (d) the same list of sample objects goes through the same pipeline again and / or through a second, separately built
+    # pipeline (a second epoch over preloaded samples): judged against the reference again and equal to the first result
+    run.cover("repeat", builder, repeat, has_ctx)
+    again = []
+    if repeat in ("same", "both"):
+        again.append(("the same pipeline again", coll, members, builder))
+    if repeat in ("other", "both"):
+        b2 = "compose" if builder != "compose" or len(mspecs) > 1 else "wrapper"
+        c2, m2 = build(b2)
+        if c2 is None:
+            return
+        again.append((f"a second pipeline ({b2}) over the same sample objects", c2, m2, b2))
+    for what, c, ms, bld in again:
+        second = {}
+        d2 = f"{desc}; {what}"
+        if not _judge(run, d2, c, ms, mspecs, mode, has_ctx, bld, batch, kover=K_REPEAT, out=second):
+            return
+        run.count("repeated_collations_checked")
+        if not eq(second.get("res"), first["res"]):
+            run.violation(K_REPEAT, f"{d2}: result {describe(second.get('res'))} differs from the first result {describe(first['res'])}")
+            return
 
 
 # ------------------------------------------------------------------------------------------------ pad family
@@ -743,18 +831,23 @@ def _run_pad(run, spec):
     run.cover("pad", builder, sctx, rctx, min(n, 3), spec["profile"], min(spec["B"], 2), any(is_seq))
 
     reconf, fluent = spec.get("reconf"), spec.get("fluent")
-    mode_c, ctx_c = _initial_config(mode, rctx, reconf)
+    kind, repeat = spec.get("flag_kind"), spec.get("repeat")
+    mode_c, ctx_c = _initial_config(mode, rctx, reconf, kind)
+    given = snap(batch)
     if reconf:
         desc += f" [built with other {reconf['attrs']} (dataset_mode {reconf['mode0']!r}), then set via attributes, style {reconf['style']}]"
         run.cover("reconf-pad", builder, tuple(reconf["attrs"]), reconf["style"])
     if fluent:
         desc += f" [collate_fn = what {fluent}() returned, if anything]"
         run.cover("fluent-pad", builder, fluent)
-    kov = [K_RECONF if reconf else None]
+    if kind:
+        desc += f" [return_ctx handed over as {_flag(rctx, kind)!r} ({type(_flag(rctx, kind)).__name__})]"
+        run.cover("flag-pad", builder, kind, rctx)
+    kov = [K_RECONF if reconf else K_FLAG if kind else None]
 
     def construct():
         pad = PadSequencesCollator(**({"dataset_mode": mode_c, "return_ctx": ctx_c} if builder == "single" else {}))
-        return _build_entry(builder, pad, [pad], mode, rctx, reconf, lambda: RecMember(9, "before", None))
+        return _build_entry(builder, pad, [pad], mode, rctx, reconf, lambda: RecMember(9, "before", None), kind)
 
     bare_nonseq = n == 1 and not is_seq[0]
 
@@ -779,10 +872,33 @@ def _run_pad(run, spec):
     kov[0] = kfl or kov[0]
     if reconf:
         run.count("reconfigured_calls_checked")
+    if kind:
+        run.count("nonbool_flag_calls_checked")
     st, res = _guarded(run, lambda: coll(batch), None, crash_key, desc)
-    if st != "ok":
+    if not _unchanged(run, desc, batch, given) or st != "ok":
         return
-    _pad_verify(run, desc, key, mode_items, sctx, raw, ctxs, res)
+    if not _pad_verify(run, desc, key, mode_items, sctx, raw, ctxs, res) or not repeat:
+        return
+    # the same sample objects go through the same collator again and / or through a second, separately built one
+    run.cover("repeat-pad", builder, repeat, sctx)
+    again = [("the same collator again", coll)] if repeat in ("same", "both") else []
+    if repeat in ("other", "both"):
+        st, c2 = _guarded(run, construct, None, key("pad:constructor"), f"constructing a second {desc}")
+        if st != "ok":
+            return
+        again.append(("a second collator over the same sample objects", c2))
+    kov[0] = K_REPEAT
+    for what, c in again:
+        d2 = f"{desc}; {what}"
+        st, res2 = _guarded(run, lambda: c(batch), None, crash_key, d2)
+        if not _unchanged(run, d2, batch, given) or st != "ok":
+            return
+        if not _pad_verify(run, d2, key, mode_items, sctx, raw, ctxs, res2):
+            return
+        run.count("repeated_collations_checked")
+        if not eq(res2, res):
+            run.violation(K_REPEAT, f"{d2}: result {describe(res2)} differs from the first result {describe(res)}")
+            return
 
 
 K_PAD_STATE = "pad:state-carried-between-batches"
@@ -820,8 +936,9 @@ def _run_padhist(run, spec):
             return
         raw, ctxs = _split(batch, sctx)
         desc = f"{head}; batch {t}: idxs={step['idxs']} la={step['la']} lb={step['lb']}"
+        given = snap(batch)
         st, res = _guarded(run, lambda: coll(batch), None, lambda e, kind: key("pad:refused-in-domain" if kind == "guard" else "pad:crash"), desc)
-        if st != "ok":
+        if not _unchanged(run, desc, batch, given) or st != "ok":
             return
         kept.append((t, bspec, desc, raw, ctxs, res))
     for t, bspec, desc, raw, ctxs, res in kept:
@@ -929,7 +1046,8 @@ def _run_shared(run, spec):
 
 def run_case(run, spec):
     fn = {"pipe": _run_pipe, "shared": _run_shared, "padhist": _run_padhist, "pad": _run_pad}[spec["fam"]]
-    if not (spec.get("reconf") or spec.get("fluent")):
+    extras = ("reconf", "fluent", "flag_kind", "repeat")
+    if not any(spec.get(k) for k in extras):
         return fn(run, spec)
     # differential classification: a case with a fluent setter / reconfiguration that fails is re-run plainly built. Fails
     # there too -> an ordinary defect under its own key; only fails here -> the fluent / reconfiguration mechanism
@@ -944,6 +1062,6 @@ def run_case(run, spec):
         _probes.append(pr)
         return
     plain = _probe(run)
-    fn(plain, {k: v for k, v in spec.items() if k not in ("reconf", "fluent")})
+    fn(plain, {k: v for k, v in spec.items() if k not in extras})
     for v in (plain.violations or pr.violations)[:2]:
         run.violation(v["key"], v["what"])
